@@ -235,7 +235,19 @@ class RulesMixin:
         self.register_shared(obj)
         if assume_inv:
             self.assume_inv(obj, cc)
+            self.assume_published_fields(obj)
         return obj
+
+    def assume_published_fields(self, obj: SObj):
+        """objects held in fields of another object have been published: their published
+        invariant holds"""
+        for f, v in obj.fields.items():
+            inner = v.value if isinstance(v, SymOpt) else v
+            if isinstance(inner, SObj):
+                icc = self.class_contract(inner)
+                if icc is not None:
+                    for cl in icc.published_inv:
+                        self.assume_clause(cl, {"self": inner}, None, None, f"published {cl.name}")
 
     def register_shared(self, obj: SObj):
         lst = getattr(self, "shared", None)
@@ -302,6 +314,7 @@ class RulesMixin:
             if id(v) in memo:
                 return memo[id(v)]
             c = SObj(v.cls, {}, tag=v.tag)
+            c.oid = v.oid  # the snapshot stands for the same object (identity comparisons)
             memo[id(v)] = c
             for k, x in v.fields.items():
                 c.fields[k] = self.snap(x, memo)
@@ -424,6 +437,8 @@ class RulesMixin:
             # property the calling unit is checked under
             ctx.prove(f"{unit}.call.{cl.name}", self.as_z3_bool(v), cl.text, fr.where(), note=f"precondition of {fc.qualname}", props=())
         old_env = self.snapshot_env(env)
+        # every call made through a contract is recorded (contracts can speak about call order)
+        self.traces.setdefault("calls", []).append((fc.qualname.split(":")[1],) + tuple(args))
         # exceptional alternatives
         alts = ["normal"]
         for exc_name, when in fc.raises.items():
@@ -443,7 +458,14 @@ class RulesMixin:
             if ctx.check() == z3.unsat:
                 raise PathEnd("exceptional outcome infeasible")
             self.run_ghost(fc.ghost_on_raise.get(exc_name, []), env, fr)
-            raise PyRaise(SObj(self.exc_class(exc_name), {"args": ()}), f"{fc.qualname} (contract) called at {fr.where()}")
+            ecls = self.exc_class(exc_name)
+            eobj = SObj(ecls, {"args": ()})
+            ecc = self.reg.classes.get(f"{ecls.__module__}:{ecls.__qualname__}")
+            if ecc is not None:
+                # a repo exception that carries data (protocol switch): arbitrary payload
+                for f_, t_ in ecc.fields.items():
+                    eobj.fields[f_] = self.make_symbolic(t_, f"{ecls.__name__}.{f_}")
+            raise PyRaise(eobj, f"{fc.qualname} (contract) called at {fr.where()}")
         result = None
         if fc.returns:
             result = self.make_symbolic(fc.returns, ctx.fresh_name("ret_" + fc.qualname.split(":")[1]))
@@ -465,7 +487,7 @@ class RulesMixin:
             self.ctx.assumptions_used.add(f"assumed (not proved) postcondition of {fc.qualname}: {cl.text}")
         if ctx.check() == z3.unsat:
             raise PathEnd("callee postcondition unsatisfiable on this path")
-        self.run_ghost(fc.ghost_post, env2, fr)
+        self.run_ghost(fc.ghost_post, env2, fr, module=cmod)
         if fc.effect == "yields":
             self.yield_point(fr, f"call {fc.qualname.split(':')[1]}")
         return result
@@ -559,6 +581,12 @@ class RulesMixin:
             if us is not None and name in us.fields:
                 us.fields[name] = value
 
+        def cat_(a, b):
+            if isinstance(a, (bytes, bytearray)) and isinstance(b, (bytes, bytearray)):
+                return bytes(a) + bytes(b)
+            return ops.payload_cat(self.ctx, ops.as_payload(self.ctx, a), ops.as_payload(self.ctx, b))
+
+        f2.locals["cat_"] = GhostFn(cat_)
         f2.locals["caller_count"] = GhostFn(caller_count)
         f2.locals["caller_set"] = GhostFn(caller_set)
         f2.locals["caller"] = us
@@ -706,6 +734,14 @@ class RulesMixin:
         if us is None:
             return
         for f, v in us.fields.items():
+            inner = v.value if isinstance(v, SymOpt) else v
+            if isinstance(inner, SObj) and inner is not us:
+                icc = self.class_contract(inner)
+                if icc is not None and icc.published_inv:
+                    present = z3.Not(v.is_none) if isinstance(v, SymOpt) else z3.BoolVal(True)
+                    for cl in icc.published_inv:
+                        val = self.spec_eval(cl, {"self": inner}, None)
+                        self.ctx.prove(f"{unit}.published.{cl.name}", z3.Implies(present, self.as_z3_bool(val)), cl.text, where, note=f"published invariant of self.{f}", props=cl.props)
             if isinstance(v, SymMap):
                 for (k, el) in v.cache:
                     if isinstance(el, SObj):
@@ -722,10 +758,14 @@ class RulesMixin:
         reach = self.reachable_objects()
         self.shared = [o for o in getattr(self, "shared", []) if id(o) in reach]
         objs = list(self.shared)
-        olds = []
+        # snapshot everything first (an object's rely may speak about objects it refers to),
+        # then havoc, then assume invariants and relies
+        snaps = []
         for obj in objs:
-            olds.append(self.havoc_object_fields(obj))
-        for obj, old in zip(objs, olds):
+            snaps.append(self.snapshot_env({"self": obj}) if self.class_contract(obj) is not None else None)
+        for obj in objs:
+            self.havoc_object_fields(obj)
+        for obj, old in zip(objs, snaps):
             self.assume_after_havoc(obj, old, use_rely)
 
     def own_task(self):
@@ -778,6 +818,7 @@ class RulesMixin:
         if cc is None or old is None:
             return
         self.assume_inv(obj, cc)
+        self.assume_published_fields(obj)
         if use_rely:
             clauses = list(cc.rely)
             if obj is self.unit_self:
@@ -1055,6 +1096,12 @@ class RulesMixin:
             k = ctx.choose(2, label, ["iter", "exit"])
             if k == 1:
                 ctx.assume_checked(i == n_expr, "loop exit")
+                from .contracts import mk_clauses as _mk2
+
+                for cl in _mk2(f"{label}.exit-assume", spec.get("exit_assume")):
+                    v = self.spec_eval_loop(cl, env_for(mk_int(i)), pre_env, fr)
+                    ctx.assume(self.as_z3_bool(v), "trusted loop lemma")
+                    ctx.assumptions_used.add(f"assumed (not proved) fact at the exit of {label}: {cl.text}")
                 if target_names:
                     # after the loop the target holds the last element (if any) -- unknown here
                     for name in target_names:
